@@ -241,7 +241,7 @@ def forward_locals(body, start_local, through_calls=None):
 # ---------------------------------------------------------------------------
 # Result / error discipline (DESIGN 3.5)
 
-LOG_CALL = re.compile(r'(log::Log(Ext)?::(log|warn|err|info|debug))|(<.* as log::Log(Ext)?>::(log|warn|err|info))|(walk::Walk::log_warn)|(log::StdLog::)|(Walk<.*>::log_warn)|std::io::_eprint|(^log::__private_api::log)')
+LOG_CALL = re.compile(r'(log::Log(Ext)?::(log|warn|err|info|debug))|(<.* as log::Log(Ext)?>::(log|warn|err|info))|(walk::Walk::log_warn)|(log::StdLog::)|(Walk<.*>::log_warn)|(Walk::<.*>::log_warn)|(handle_fetch_physical_location_err)|std::io::_eprint|(^log::__private_api::log)')
 DISCARD_METHODS = re.compile(r'Result(?:::)?<.*>::(ok|is_ok|is_err|unwrap_or|unwrap_or_default|unwrap_or_else|err|is_ok_and|is_err_and)$')
 PANIC_METHODS = re.compile(r'Result(?:::)?<.*>::(unwrap|expect|unwrap_err|expect_err)$')
 PASS_METHODS = re.compile(r'Result(?:::)?<.*>::(map_err|map|and_then|or_else|inspect_err|as_ref|as_mut|with_context|context)$|<.* as std::convert::Into<.*>>::into|<.* as std::convert::From<.*>>::from')
